@@ -83,7 +83,12 @@ class UpgradedAnnotation(metaclass=abc.ABCMeta):
             return True
         if isinstance(other, UpgradedAnnotation):
             try:
-                return self.source_value() == other.source_value()
+                left = self.source_value()
+                right = other.source_value()
+                # as when tuples are compared: an object equals itself, whatever
+                # its own == answers (an array, an expression, ...); an answer
+                # without a truth value is no answer
+                return left is right or bool(left == right)
             except Exception:
                 # e.g. a postponed annotation naming something that only
                 # exists under TYPE_CHECKING: compare without evaluating
